@@ -4,7 +4,7 @@ Complete sweep: 80 dialects x every title keyword of every role x header depth 1
 {0,1,3} x separator {space, tab, none (must fail)} x title {"", "x", " a b "}; every step keyword x bullet
 {*, +, -, none (must fail), other character (must fail)} x spacing {0,1,2}; table rows at indentation 0..8 with space
 and tab, cells from {a, -, :-, -:, :-:, --, ''} (all-delimiter rows must not match, rows without delimiter cells
-must match iff indented 2..5, mixed rows are unspecified and skipped); tag lines with 0..3 back-quoted tags, words
+must match iff indented 2..5; for rows mixing delimiter and ordinary cells only position-independence of the verdict is required, since both the 'any cell' and the 'every cell' reading of 'separator row' satisfy the statement); tag lines with 0..3 back-quoted tags, words
 between them, indentation {0,2}.  Oracle: hand-written reference (no regular expressions) for return value,
 matched_type, matched_keyword, trimmed matched_text and location.column."""
 from __future__ import annotations
@@ -219,10 +219,23 @@ def job_tables(ncells):
     acc = Acc()
     tm = GherkinInMarkdownTokenMatcher('en')
     line = None
+    mixed = {}
     for cells in itertools.product(CELLS, repeat=ncells):
         nsep = sum(1 for c in cells if c in SEPS)
         if 0 < nsep < len(cells) and ncells:
-            acc.counters['mixed_rows_skipped'] += 1
+            # a row with delimiter cells *and* ordinary cells: "GFM separator row" can be read as "some cell is a delimiter" (what the
+            # JavaScript matcher does) or "every cell is" (GFM) - either way the verdict cannot depend on *where* the delimiter cell stands
+            line = '   |' + ''.join(' ' + c + ' |' for c in cells)
+            got, t = call(tm, 'TableRow', line, acc, {'kind': 'md-line', 'dialect': 'en', 'entry': 'TableRow', 'line': line})
+            acc.n += 1
+            acc.validated += 1
+            if got is not None:
+                mixed.setdefault(bool(got), line)
+                if len(mixed) == 2:
+                    acc.violation('table-recognition', {'kind': 'md-mixed-rows', 'lines': [mixed[True], mixed[False]]},
+                                  'rows that mix delimiter and ordinary cells: %r is recognised as a table row, %r is not - under neither reading of "separator row" does the position of the delimiter cell matter'
+                                  % (mixed[True], mixed[False]))
+            acc.counters['mixed_rows'] += 1
             continue
         for ws in (' ', '\t'):
             for n in range(0, 9):
@@ -305,7 +318,10 @@ def run(ctx):
 
 def replay(case):
     acc = Acc()
-    tm = GherkinInMarkdownTokenMatcher(case['dialect'])
+    tm = GherkinInMarkdownTokenMatcher(case.get('dialect', 'en'))
+    if 'line' not in case:
+        verdicts = [bool(call(tm, 'TableRow', l, acc, case)[0]) for l in case['lines']]
+        return ['rows that mix delimiter and ordinary cells get different verdicts: %r' % (list(zip(case['lines'], verdicts)),)] if len(set(verdicts)) > 1 else []
     got, t = call(tm, case['entry'], case['line'], acc, case)
     if case['entry'] in TITLE:
         exp = ref_title(case['dialect'], TITLE[case['entry']], case['line'])
@@ -315,4 +331,8 @@ def replay(case):
         exp = ref_step(case['dialect'], case['line'])
         if bool(got) != (exp is not None) or (got and (t.matched_keyword, t.matched_text, t.location.get('column')) != exp):
             return ['match_StepLine on %r: got %r, expected %r' % (case['line'], got, exp)]
+    if case.get('kind') == 'md-mixed-rows':
+        verdicts = [bool(call(tm, 'TableRow', l, acc, case)[0]) for l in case['lines']]
+        if len(set(verdicts)) > 1:
+            return ['rows that mix delimiter and ordinary cells get different verdicts: %r' % (list(zip(case['lines'], verdicts)),)]
     return [v[0]['message'] for v in acc.viol.values()]
